@@ -359,11 +359,44 @@ def gen_linscale(rng, tier):
     return ["linscale" + l[len("linsolve"):] for l in lines]
 
 
+# linsub alg csc L nb n np (r c)* vals x0 : exactly factorisable integer systems (A = L0*U0), scaled by 2^-1040 in the driver
+def gen_linsub(rng, tier):
+    out = []
+    for _ in range(60 if tier == "quick" else 600):
+        n = rng.choice([2, 3, 3, 4, 5])
+        L = rng.choice([0, 1, 2, 3, 4])
+        nb = rng.randrange(1, (2 * L + 2) if L else 4)
+        dens = rng.choice([0.3, 0.5, 0.8])
+        lmask = [[r > c and rng.random() < dens for c in range(n)] for r in range(n)]
+        umask = [[r < c and rng.random() < dens for c in range(n)] for r in range(n)]
+        blocks = []
+        for b in range(nb):
+            L0 = [[(1 if r == c else (rng.choice([-2, -1, 1, 2, 3]) if lmask[r][c] else 0)) for c in range(n)] for r in range(n)]
+            U0 = [[(rng.choice([1, -1, 2, -2, 4]) if r == c else (rng.choice([-3, -2, -1, 1, 2, 3]) if umask[r][c] else 0))
+                   for c in range(n)] for r in range(n)]
+            A = [[sum(L0[r][k] * U0[k][c] for k in range(n)) for c in range(n)] for r in range(n)]
+            blocks.append((A, [rng.randrange(-4, 5) for _ in range(n)]))
+        # the pattern: everything the factors touch (A's non-zeros and the positions of L0 and U0)
+        pairs = sorted(set((r, c) for r in range(n) for c in range(n)
+                           if r == c or lmask[r][c] or umask[r][c] or any(blk[0][r][c] != 0 for blk in blocks)))
+        # the two Doolittle decompositions divide by the pivot; the Mozart pair multiplies by its reciprocal by design
+        # (which overflows for a subnormal pivot) and is left out
+        t = [rng.choice([0, 2]), rng.randrange(2), L, nb, n, len(pairs)]
+        for r, c in pairs:
+            t += [r, c]
+        for A, _ in blocks:
+            t += [A[r][c] for r, c in pairs]
+        for _, x0 in blocks:
+            t += x0
+        out.append("linsub " + " ".join(map(str, t)))
+    return out
+
+
 def lu_histogram(lines):
     h = {"alg": {}, "n": {}, "L": {}, "order": {}, "partial_group": 0}
     for l in lines:
         t = l.split()
-        if t[0] not in ("lu", "linsolve", "linbig", "lubig", "linscale"):
+        if t[0] not in ("lu", "linsolve", "linbig", "lubig", "linscale", "linsub"):
             continue
         alg, csc, L, nb, n = map(int, t[1:6])
         h["alg"][str(alg)] = h["alg"].get(str(alg), 0) + 1
